@@ -282,6 +282,7 @@ func cmdCheck(args []string) int {
 	}
 	for _, o := range run.obls {
 		present[o.Name] = true
+		present[stripRet(o.Name)] = true
 		if o.Cover {
 			covers++
 			if o.Result.Status == "unsat" {
@@ -306,7 +307,9 @@ func cmdCheck(args []string) int {
 	}
 	// ledger: every recorded obligation must still exist
 	for _, name := range ledger.Obligations[*prop] {
-		if !present[name] {
+		// matched up to the ordinal of the return statement: adding or removing an early return renumbers the
+		// per-return obligations without making any clause vanish
+		if !present[name] && !present[stripRet(name)] {
 			o := &Obligation{Name: name, Kind: "ledger"}
 			total++
 			report(o, "obligation recorded in the ledger is no longer generated (contract removed, function renamed, or clause dropped)", nil)
